@@ -17,8 +17,8 @@ ID = "C13"
 NEEDS_DEPS = True
 RULE = ("case = (model or copula-model spec, grid constructor in {uniform, fixed-size, geometric, geometric-with-bounds, "
         "probability-step, credit sym/asym}, generated arguments, dimension 1..3, number of successive refinements 0..k); "
-        "contracts fire on every constructor call and on every refine(); non-trivial = the grid was built (inside the domain: "
-        ">= 2 states per half-axis, l < a < -h) and at least one post-condition was evaluated; distinct = distinct "
+        "contracts fire on every constructor call and on every refine(); non-trivial = the grid was built (credit thresholds "
+        "l < a < -h; spatial steps up to the size of the truncation bounds: built well-formed or refused) and at least one post-condition was evaluated; distinct = distinct "
         "(model label, ctor, dim, rounded arguments, refinements)")
 ASSUMPTIONS = [
     "domain: credit thresholds l < a < -h (on the bounds: refused or well-formed); spatial steps from 1/200 of the truncation bound up to beyond it; truncation "
